@@ -79,6 +79,11 @@ def failing_locations(facts):
     rc, out = sh(["lake", "env", "lean", p], cwd=LEAN)
     names = re.findall(r'"((?:[^"\\]|\\.)*)"', out)
     res = []
+    for sw in facts.get("sentThenWritten") or []:
+        res.append({"sentThenWritten": sw["loc"], "fn": sw["fn"], "pos": sw["pos"], "how": sw["how"],
+                    "sent": "%s at %s" % (sw["sentHow"], sw["sentPos"]),
+                    "why": "a field of the object is written after the pointer to it was sent on a channel (the receiver owns it): "
+                           "rejected by stwOk unless the policy protects the location by `atomic` or `locked`"})
     for n in names:
         n = n.encode().decode("unicode_escape") if "\\" in n else n
         rows = [a for a in facts["accesses"] if a["loc"] == n]
@@ -196,6 +201,25 @@ def gen_play(rng, idx, long=False):
     return {"name": "gen%d" % idx, "text": "\n".join(out) + "\n", "args": args, "sigspec": sigspec, "features": feats}
 
 
+def handover_plays(rng):
+    """plays aimed at the channel hand-over of action reports (prompter line -> collector): an action marked `?`
+    that really fails, after an earlier successful action of the same actor, in several scenes, by several actors"""
+    res = []
+    for k, nact in enumerate((1, 3)):
+        actors = ["a", "b", "c"][:nact]
+        out = ["role worker", "  :ok true", "  :ok2 echo fine", "  :flop exit 3", "  :flop2 echo oops; exit 1", "end", "cast"]
+        out += ["  %s plays worker" % a for a in actors]
+        out += ["end", "script", "  tempo %dms" % rng.pick([20, 30, 40])]
+        for a in actors:
+            out.append("  scene g entails for %s: ok; ok2" % a)
+            out.append("  scene f entails for %s: ok; flop?; ok2; flop2?" % a)
+            out.append("  scene h entails for %s: flop?; flop?; ok" % a)
+        out += ["  storyline gfffhf%s" % ("fhf" * rng.range(1, 2)), "end"]
+        res.append({"name": "handover%d" % k, "text": "\n".join(out) + "\n", "args": [], "sigspec": None,
+                    "features": {"handover": True, "actors": nact, "fail": "tolerated-after-success"}})
+    return res
+
+
 def example_plays():
     """the repository's own examples (run from a scratch directory with the configuration copied)"""
     res = []
@@ -277,7 +301,7 @@ def cmd_locations(facts, top):
 # ------------------------------------------------------------------------------------------------
 
 def dynamic(rep, facts, rng, n, with_examples, workers, table_ok):
-    plays = [gen_play(rng.fork(), i, long=(i % 7 == 6)) for i in range(n)]
+    plays = handover_plays(rng.fork()) + [gen_play(rng.fork(), i, long=(i % 7 == 6)) for i in range(n)]
     if with_examples:
         plays += example_plays()
     t0 = time.time()
@@ -317,7 +341,7 @@ def run(tier, seed):
     rep.assumptions = [
         "A1 the translator's facts are right (fork tree, pre/post/sep/mid, preDone, joinBeforeDone, lock sets, atomic): derived from the SSA form of pkg/cmd on every run; go / WaitGroup / channel / Mutex / sync/atomic synchronise as the Go memory model says; panics ignored",
         "A2 memory is named by struct type and field; other packages are opaque (pkg/crdb/log, stop, os/exec … are covered only by the race-detector runs); per-instance objects (sink, exec.Cmd, captured locals of one activation) are not shared between instances",
-        "A3 objects sent through channels are not touched by the sender afterwards (message locations)",
+        "A3 (reduced) checked: no function of pkg/cmd writes a field of an object after sending the pointer to it on a channel (sentThenWritten facts, stwOk); assumed: message objects reach another goroutine only through such a send / receive (no aliases kept in fields, maps, slices; no objects leaving pkg/cmd) and the receiver does not write fields the sender still reads",
         "A4 executions that take the one-minute hard-shutdown exit of runConduct are outside the theorem",
         "the race detector is sound only for the schedules it sees; it is the search for a failing input, not the proof"]
     thorough = tier == "thorough"
@@ -342,14 +366,18 @@ def run(tier, seed):
     if facts is not None:
         enc = facts["encoded"]
         rep.obligation("G-C14 access table regenerated from the working tree", "G", True,
-                       "%d roots, %d accesses to %d locations in %d functions; %d locations are written: %d rows in the Lean table; notes: %s"
+                       "%d roots, %d accesses to %d locations in %d functions; %d locations are written: %d rows in the Lean table; "
+                       "%d functions send a parameter on a channel, %d sentThenWritten facts; notes: %s"
                        % (len(facts["roots"]), enc["allAccesses"], enc["allLocations"], facts["funcs"], len(enc["locNames"]), enc["rows"],
+                          len(facts.get("sendSummary") or {}), len(facts.get("sentThenWritten") or []),
                           "; ".join(facts["notes"] or []) or "none"))
         rep.count("roots", len(facts["roots"]))
         rep.count("accesses", enc["allAccesses"])
         rep.count("locations", enc["allLocations"])
         rep.count("written locations", len(enc["locNames"]))
         rep.count("table rows", enc["rows"])
+        rep.count("functions sending a parameter on a channel", len(facts.get("sendSummary") or {}))
+        rep.count("sentThenWritten facts", len(facts.get("sentThenWritten") or []))
         for r in facts["roots"]:
             rep.count("root kind " + r["kind"])
         rep.sample({"roots": [(r["name"], r["kind"], r["parents"], "multi" if r["multi"] else "single", r["join"], r["leaks"]) for r in facts["roots"]]})
